@@ -1977,6 +1977,15 @@ def c18_model_checks(sc, model, viols):
             return
         if zgw0 >= 0 and (mid >= zgw0).any():
             sub[int(np.argmax(mid >= zgw0)):] = True
+            if not (P["zMid"] >= zgw0).any():
+                # the recorded C18 finding (mid-depths not recomputed after the profile was deepened) at work: whether the
+                # table lies in the profile is decided with the stale mid-depths, so nothing below it is saturated.  Report
+                # it under its own key if that is all that differs, and compare the rest as if there were no table in the soil.
+                stale_sub, sub = sub, np.zeros(n, dtype=bool)
+                if np.all(th0[stale_sub] < P["th_s"][stale_sub] - 1e-12):
+                    viols.append(V("C18", "iwc-below-table-not-saturated-stale-mid", sc,
+                                   "compartments below the water table are not saturated at the start: 'table in the profile' is decided with the mid-depths of the undeepened profile",
+                                   comp=int(np.argmax(stale_sub)), zgw=zgw0, stale_zMid_last=float(P["zMid"][-1]), mid_last=float(mid[-1])))
     if iw["method"] == "Layer":
         want_all, known = th0.copy(), np.zeros(n, dtype=bool)
         req = {}
